@@ -112,6 +112,9 @@ func (v *Verifier) VerifyFunc(fc *FuncContract) {
 	if fc.Options["trusted"] != "" && fn != nil {
 		rep.Notes = append(rep.Notes, "TRUSTED (body not verified): "+fc.Options["trusted"])
 		v.UsedEnv["contract of "+fc.Key+" ASSUMED, body not verified: "+fc.Options["trusted"]] = true
+		if fc.Options["bounded"] != "" {
+			v.addBoundedStandIn(fc)
+		}
 		return
 	}
 	if fn == nil {
@@ -234,7 +237,7 @@ func (v *Verifier) VerifyFunc(fc *FuncContract) {
 				continue
 			}
 			hyps := append(append(append([]*Term(nil), o.St.PC...), env.scratch.Facts...), ex.GlobalFacts...)
-			ob := &Obligation{Name: name, Func: fc.Key, Label: c.Label, Kind: "ensures", Path: i, Hyps: hyps, Goal: goal, Bounded: o.St.Bounded, Trace: traceStrings(o.St), PathSt: o.St, Fn: fn}
+			ob := &Obligation{Name: name, Func: fc.Key, Label: c.Label, Kind: "ensures", Path: i, Hyps: hyps, Goal: goal, Bounded: o.St.Bounded, Trace: traceStrings(o.St), PathSt: o.St, Fn: fn, RetVal: o.Ret, Panicked: o.Panic}
 			for _, kf := range v.knownFor(name) {
 				if kf.exceptExpr == nil {
 					continue
